@@ -122,7 +122,7 @@ PROPS["C01"] = {
     "lean_modules": ["StyluaModel.Props.C01"],
     "theorem_prefix": "C01_",
     "required_theorems": ["C01_binops_spaced", "C01_binop_table_complete", "C01_unops_shape", "C01_no_minus_minus", "C01_expr_reparses", "C01_expr_parses_back", "C01_faithful_parses", "C01_parser_answers_right", "C01_type_wellformed", "C01_string_token"],
-    "hx": [["c05"], ["c02t"], ["pipe"], ["slots"]],
+    "hx": [["c05"], ["c02t"], ["c08"], ["pipe"], ["slots"]],
     "level": "proof",
     "level_text": "Proof, partial: theorems cover the expression-level edit closure (every parenthesis edit yields a tree that re-parses to itself, for all oracles), the `- -` clause, string tokens staying one token, and the operator-text table regenerated from the compiled code on every run. The statement-level grammar and the claim that every separator emitted by the ~150 trivia sites is safe are carried by the correspondence and the closed-set re-parse oracle only.",
     "level_note": "Trusted: Lean kernel; ParenRule/StrLit models tied by correspondence; Spec/Parser.lean (mirror of full_moon's expression parser) compared with full_moon on every run; OpTables observed from the compiled formatter by the translator; the closed-set oracle uses full_moon itself as the parser the property names.",
